@@ -21,6 +21,7 @@ RULE = (
     'all traces of the hopping model (symbols: none, (site,inner), (site,shell)) for the listed '
     '(atoms, sites, frames<=L) bounds; each trace is one execution of the real event builder; '
     'inputs unchanged and build repeatable; states/events re-read after the prev/next views; distinct = distinct event tables observed'
+    '; event table unchanged by split(2); end-to-end from geometry: every history of (1 atom, 3 sites, <=3 frames) and (2 atoms, 2 sites, 2 frames) with shells concretised and built with float / per-label radii; 33000-frame history: event rows against the reference'
 )
 LEVEL_TEXT = (
     'Exhaustive exploration of every site/inner-site history of the hopping model up to the frame '
